@@ -290,8 +290,30 @@ _PAR_JOB = None
 def _par_entry(prop, tier, seed, n):
     worker, kw = _PAR_JOB
     sub = Ctx(prop, tier, seed)
-    worker(sub, n, **kw)
+    try:
+        worker(sub, n, **kw)
+    except Exception as e:
+        if not impl_raised(sub, e):
+            raise
     return sub.export()
+
+
+def impl_raised(ctx, exc) -> bool:
+    """An exception that escapes from atomica's own code into the harness at a place where the unchanged library does not raise is behaviour of the
+    implementation, not a fault of the machinery: it is recorded as a broken correspondence (the run continues to the verdict; without a concrete
+    failing input the verdict is `no-failing-input-found`). Anything raised by the harness itself stays a machinery error (exit 2)."""
+    frames = traceback.extract_tb(exc.__traceback__)
+    harness_dir, impl_dir = str((VERIF / "harness").resolve()), str((REPO / "atomica").resolve())
+    last_h = max([i for i, f in enumerate(frames) if os.path.realpath(f.filename).startswith(harness_dir)] or [-1])
+    impl = [i for i, f in enumerate(frames) if os.path.realpath(f.filename).startswith(impl_dir)]
+    if not impl or impl[-1] < last_h:
+        return False
+    f = frames[impl[-1]]
+    hf = frames[last_h] if last_h >= 0 else None
+    ctx.brk("correspondence", f"the implementation raised {type(exc).__name__} ({str(exc)[:200]}) in {f.name} (atomica/{os.path.basename(f.filename)}:{f.lineno}) where the unchanged library does not raise"
+            + (f"; called from {os.path.basename(hf.filename)}:{hf.lineno} ({hf.name}); the rest of that part of the check was not run" if hf else ""),
+            stage="impl-exception", traceback="".join(traceback.format_exception(type(exc), exc, exc.__traceback__))[-1500:])
+    return True
 
 
 def load_findings() -> list[dict]:
@@ -436,7 +458,11 @@ def _main(mod, ctx: Ctx, args) -> int:
         ctx.brk("proof", "forbidden token in Lean sources", hits=hits[:10])
 
     # 4-5. correspondence + oracles
-    mod.run(ctx)
+    try:
+        mod.run(ctx)
+    except Exception as e:
+        if not impl_raised(ctx, e):
+            raise
 
     # 6. focused failing-input search when something broke and no concrete violation yet
     if ctx.breaks and not ctx.violations and hasattr(mod, "search"):
